@@ -325,3 +325,43 @@ Proof.
       * change (inorder t) with (sents (abs_of s t)). rewrite Habs, Ha. vm_compute. reflexivity.
       * vm_compute in Hf. injection Hf as <-. reflexivity.
 Qed.
+
+(* ------------------------------------------------------------------ *)
+(* Explicit handles (Avl/Session.v): a mutable view that stays open across operations, opened anew
+   only after the buffer was extended or a view was requested; includes trees initialised with a
+   capacity smaller than the record count of their buffer and used through the same handle. *)
+From Stevia Require Import Avl.Session Avl.SessionFacts.
+Open Scope N_scope.
+Theorem C01_session_refines_u8 :
+  forall (capacity nrec : N) (keep : bool) (ops : list op),
+    capacity <= nrec -> nrec <= 254 ->
+    growth_okw_sess 8 (spec_init_sess capacity nrec keep) ops ->
+    exists outs : list out,
+      run_sess 8 (init_sess capacity nrec keep) ops = map Ok outs /\
+      map out_abs outs = run_s_sess (spec_init_sess capacity nrec keep) ops.
+Proof. exact run_sess_refines_u8. Qed.
+Print Assumptions C01_session_refines_u8.
+
+Theorem C01_session_refines_u32 :
+  forall (capacity nrec : N) (keep : bool) (ops : list op),
+    capacity <= nrec -> nrec + 1 < 2 ^ 32 ->
+    growth_okw_sess 32 (spec_init_sess capacity nrec keep) ops ->
+    exists outs : list out,
+      run_sess 32 (init_sess capacity nrec keep) ops = map Ok outs /\
+      map out_abs outs = run_s_sess (spec_init_sess capacity nrec keep) ops.
+Proof. exact run_sess_refines_u32. Qed.
+Print Assumptions C01_session_refines_u32.
+
+Theorem C01_session_conservative :
+  forall (ops : list op) (x : ssess),
+    Forall no_ext ops -> snrec (a_st x) <= scap (a_st x) -> run_s_sess x ops = run_s (a_st x) ops.
+Proof. exact run_s_sess_fixed. Qed.
+Print Assumptions C01_session_conservative.
+
+Theorem C01_session_dead_handle_is_step_c :
+  forall (bits : N) (s : st) (o : op),
+    step_sess bits (mkSess s false) o =
+    (x <- step_c bits s o ;; let '(s', r, log) := x in Ok (mkSess s' (live_after false o), r, log)).
+Proof. exact step_sess_dead. Qed.
+Print Assumptions C01_session_dead_handle_is_step_c.
+
